@@ -107,7 +107,9 @@ fn process(rx: mpsc::Receiver<(u32, Vec<u8>)>) {
         let check = !outcome.starts_with("ok:") || n % CANARY_EVERY == 0;
         let canary = if check { canaries.battery() } else { "canary_skip".to_string() };
         let mut o = out.lock();
-        let _ = writeln!(o, "R\t{}\t{}", esc(&class), esc(&canary));
+        // the digest of the complete outcome lets the supervisor compare this call with the same
+        // input delivered to a fresh process (history independence)
+        let _ = writeln!(o, "R\t{}\t{}\t{:016x}", esc(&class), esc(&canary), crate::entries::fnv(outcome.as_bytes()));
         let _ = o.flush();
     }
 }
